@@ -503,6 +503,8 @@ impl MqttState {
                 .get(publish.pkid as usize)
                 .ok_or(StateError::Unsolicited(publish.pkid))?
                 .is_some()
+                // a QoS 2 publish keeps its packet id until its pubcomp arrives
+                || self.outgoing_rel.contains(publish.pkid as usize)
             {
                 info!("Collision on packet id = {:?}", publish.pkid);
                 self.collision = Some(publish);
